@@ -54,7 +54,7 @@ PROPS = {
         "level_text": ("one subscription over a table of 20-200 or 1100-1500 rows; the primary stream attaches before any write; 5-15 (quick) / 5-39 (thorough) steps; every attach opens a real HTTP stream which is read to the end of "
                        "the case; a stream that ends (error event, close) is accepted - the prefix it delivered must still obey the id rules - a stream that stays open must not have skipped or repeated anything: "
                        "position = MAX(id) of the subscription's changes table, replay = SELECT on the database"),
-        "level_note": "the interleaving of the attach's catch-up read with the matcher's commit and broadcast is sampled by wall-clock placement of the attach (pauses aimed at the batching window), not enumerated - the harness does not own the scheduler inside the agent; the attach buffers hold 10240 events, a burst larger than that is not produced (1500 max), so the 'gave up' path is not reached; the client library's gap detection (klukai-client) is exercised by the separate sub-campaign 'client' when present",
+        "level_note": "the interleaving of the attach's catch-up read with the matcher's commit and broadcast is sampled by wall-clock placement of the attach (pauses aimed at the batching window), not enumerated - the harness does not own the scheduler inside the agent; the attach buffers hold 10240 events, a burst larger than that is not produced (1500 max), so the 'gave up' path is not reached; sub-campaign 'client': the real klukai-client SubscriptionStream against a harness-owned HTTP server that serves generated event scripts (snapshot or resume point, then change ids stepping +1 with generated repeats, jumps and steps backwards): the client must yield every event up to the first irregular id unchanged and report MissedChange{expected: last+1, got} exactly there",
         "rule": ("generated as above. Non-trivial: at least one attach happened within 700 ms after a write (its catch-up can overlap the batch that carries that write), at least three streams were open and the change log has at least two entries. Distinct = hash of the case."),
         "assumptions": ["resume points lie within the retained change log (the log is pruned to ~500 entries only every 5 minutes; cases are shorter)"],
     },
@@ -250,7 +250,7 @@ PROPS = {
         "workers": 16,
         "engine": "E1-pure",
         "abort_is_violation": True,
-        "technique": "property-based round-trip + differential (crsql_pack_columns) + generated mutations of valid frames under a counting allocator; libFuzzer targets with the same oracle in the thorough tier",
+        "technique": "property-based round-trip + differential (crsql_pack_columns) + generated mutations of valid frames under a counting allocator; the thorough tier runs the same oracles over 50x more generated cases",
         "level_text": ("generated-input search with four oracles: decode(encode(x)) == x for every wire type; pack/unpack round trip and byte-for-byte "
                        "agreement with the database extension's own packing; decoding mutated valid frames never panics, never aborts, never allocates "
                        "beyond 64 KiB + 32 x input length (counting global allocator, requests > 1 GiB refused and turned into a caught panic), yields "
@@ -315,15 +315,17 @@ PROPS = {
     },
 }
 
+def _serves(name):
+    return sorted(pid for pid, conf in PROPS.items() if name in conf.get("engine", ""))
+
+
 ENGINES = [
-    {"name": "E1-pure", "path": "/verif/harness", "serves_properties": ["C02", "C04", "C08", "C09", "C18", "C20"],
+    {"name": "E1-pure", "path": "/verif/harness", "serves_properties": _serves("E1-pure"),
      "kind_free_text": "proptest TestRunner driven from the kverif binary over pure / single-connection code"},
-    {"name": "E2-sim", "path": "/verif/harness", "serves_properties": ["C01", "C02", "C03", "C05", "C06", "C07", "C10"],
-     "kind_free_text": "deterministic in-process cluster simulator on real setup() nodes; the harness is network, scheduler and sync driver"},
-    {"name": "E3-live", "path": "/verif/harness", "serves_properties": ["C11", "C12", "C13", "C14", "C15", "C16", "C17", "C19", "C20"],
+    {"name": "E2-sim", "path": "/verif/harness", "serves_properties": _serves("E2-sim"),
+     "kind_free_text": "in-process nodes from the real setup(); the harness is network, scheduler and sync driver, requests go through the real HTTP handlers (C15, C19 also drive the real CLI binary; C20's mix sub-campaign uses a live agent)"},
+    {"name": "E3-live", "path": "/verif/harness", "serves_properties": _serves("E3-live"),
      "kind_free_text": "full agents on loopback (HTTP API, QUIC) driven by generated request/change/attach/shutdown sequences"},
-    {"name": "E4-fuzz", "path": "/verif/fuzz", "serves_properties": ["C09"],
-     "kind_free_text": "cargo-fuzz / libFuzzer targets with the semantic oracle inside the target (thorough tier)"},
 ]
 
 # properties not (yet) claimed; kept current as checks land
